@@ -48,7 +48,7 @@ from ..tok import S
 from ..gen import graphs as G
 
 PID = "C13"
-COQ_HEADER = "From Coq Require Import List NArith ZArith.\nImport ListNotations.\nFrom SK Require Import lib.Tok lib.LGraph model.C13_Model.\n"
+COQ_HEADER = "From Coq Require Import List NArith ZArith.\nImport ListNotations.\nFrom SK Require Import lib.Tok lib.LGraph model.C13_Model model.C13_Trace.\n"
 SHARD = 40
 IMPL_TIMEOUT = 1500
 COQ_TIMEOUT = 1500
@@ -90,7 +90,7 @@ ASSUMPTIONS = ["list-valued pre-grouping attributes may be given as lists or tup
                "what the caller does to its own objects between two calls (in-place edits, mutated results) reaches the model as the resulting "
                "template list (OTemplates); the model functions are pure, so every call equals its fresh evaluation by construction"]
 TESTED_NOT_PROVED = []
-LEVEL_TEXT = ("Machine-checked proof (Coq, 19 theorems in coq/props/C13.v, all closed under the global context). Generic part, for every list "
+LEVEL_TEXT = ("Machine-checked proof (Coq, 27 theorems in coq/props/C13.v, all closed under the global context). Generic part, for every list "
               "of items and every decidable test `iso` that is an equivalence, with an iso-invariant pre-grouping attribute as the code reads "
               "it: GraphCluster.iterative_cluster / fit (visited set, comparison with the first member only, attribute pre-filter) gives every "
               "item exactly one class and two items share a class IFF iso (C13_partition; clusters list = rule_to_cluster, a partition of the "
@@ -104,6 +104,11 @@ LEVEL_TEXT = ("Machine-checked proof (Coq, 19 theorems in coq/props/C13.v, all c
               "(equal node counts + verified enumerator Mono.monos, induced, element/charge/order matchers) decides exactly the existence of "
               "a label- and bond-preserving bijection and IS an equivalence on well-formed graphs (C13_iso_decides_isomorphism, "
               "C13_iso_is_equivalence), which yields C13_partition_graphs / C13_batch_any_order_graphs with no premise about the test. "
+              "Round 5: the correspondence evaluates TRACED loops (model/C13_Trace.v) on items given as raw attribute dictionaries and compares, "
+              "after every call, classes, template list AND the sequence of isomorphism tests (pairs handed to graph_isomorphism, in call order): "
+              "C13_trace_projection (traced = untraced results), C13_lib_check_trace (exactly the same-attribute templates up to the first "
+              "isomorphic one), C13_gc_trace (earlier vs later position with equal attribute, no pair twice, <= n(n-1)/2 tests), "
+              "C13_raw_matchers (attribute selection), C13_ctor_contract (constructor contract of both classes), C13_stepx_state. "
               "Model and code are compared after every call on every run.")
 LEVEL_NOTE = ("Trusted: Coq kernel + vm_compute; the hand-written model and encoders; networkx is_isomorphic returns the verdict of the verified "
               "enumerator (the generic theorems need only that it is an equivalence; monitored: classes compared after every call, oracle uses "
@@ -252,6 +257,45 @@ class _World:
         self._gc = self._bc = self._m = None
         self.last_gc = None
         self._decoy = None
+        self.trace = []       # (module tag, id(first graph), id(second graph)) of every graph_isomorphism call of the current op
+
+    # ---- round 5: the sequence of isomorphism tests (intermediate values)
+    def recording(self):
+        """Context manager: graph_isomorphism as seen by graph_cluster.py / batch_cluster.py is wrapped by a recorder."""
+        import contextlib
+        import synkit.Graph.Matcher.graph_cluster as m_gc
+        import synkit.Graph.Matcher.batch_cluster as m_bc
+        W = self
+
+        @contextlib.contextmanager
+        def cm():
+            saved = (m_gc.graph_isomorphism, m_bc.graph_isomorphism)
+
+            def wrap(tag, f):
+                def rec(g1, g2, *a, **k):
+                    W.trace.append((tag, id(g1), id(g2)))
+                    return f(g1, g2, *a, **k)
+                return rec
+            W.trace = []
+            m_gc.graph_isomorphism, m_bc.graph_isomorphism = wrap("gc", saved[0]), wrap("bc", saved[1])
+            try:
+                yield
+            finally:
+                m_gc.graph_isomorphism, m_bc.graph_isomorphism = saved
+        return cm()
+
+    def trace_ids(self, op):
+        """The recorded tests as (pool id of the first argument, pool id of the second argument).  One-shot clustering tests
+        two data items; lib_check tests (template, data item)."""
+        off = self.n if self.side(_op_idxs(op)) else 0
+        toff = self.n if self.tside else 0
+        out = []
+        for tag, a, b in self.trace:
+            ga, gb = self.by_obj.get(a), self.by_obj.get(b)
+            ia = -1 if ga is None else self.state[ga] + (off if tag == "gc" else toff)
+            ib = -1 if gb is None else self.state[gb] + off
+            out.append([ia, ib])
+        return out
 
     # ---- objects under test
     def _mk(self, cls):
@@ -553,10 +597,13 @@ def _play(case, on_op=None):
     out = []
     for op in case["ops"]:
         before = W.tobs()
-        o, classes, with_t = W.do(op)
+        with W.recording():
+            o, classes, with_t = W.do(op)
         after = W.tobs()
         if with_t:
             o.append(after)
+            if isinstance(o[0], list) or o[0] != "ValueError":
+                o.append(W.trace_ids(op))       # round 5: the isomorphism tests performed, in call order
         out.append(o)
         if on_op is not None:
             on_op(op, classes, before, after, o)
@@ -595,7 +642,7 @@ def _const_side(case, idxs):
 def _in_domain(case):
     try:
         cfg = _eff(case)
-        if len(cfg["names"]) > 2 or len(cfg["names"]) != len(cfg["defaults"]):
+        if len(cfg["names"]) != len(cfg["defaults"]):
             return False
         for d in cfg["defaults"]:
             if isinstance(d, bool) or not isinstance(d, (int, str)):
@@ -638,11 +685,11 @@ def _in_domain(case):
         tail = False
         for op in ops:
             k = op[0]
-            if k in CONTRACT_OPS:
+            if k == "ctor" and not (isinstance(op[5], str) and op[1] in ("gc", "bc")):
                 return False
             if k in EXTRA_OPS:
                 tail = True
-            elif tail:
+            elif tail and k not in CONTRACT_OPS:
                 return False
             if k in ("gc_iter", "gc_fit", "cluster", "fit") and not op[1]:
                 return False
@@ -669,16 +716,30 @@ def _norm_cfg(cfg):
     return (tuple(sorted(zip(cfg["names"], [repr(d) for d in cfg["defaults"]]))), cfg["edge"])
 
 
-def _coq_item(idx, it, case, I):
+def _simple(v):
+    return isinstance(v, (int, str)) and not isinstance(v, bool)
+
+
+def _coq_item(idx, it, case, I, NK=None, EK=None):
+    """Round 5: the item carries its RAW attribute dictionaries (every node attribute with a str / int value, every edge
+    attribute with a numeric or tuple-of-numbers value); the model selects the configured names itself (project13)."""
     cfg = _eff(case)
-    names = list(cfg["names"]) + [None, None]
 
     def na(n, a):
-        return clist([copt(None if (k is None or a.get(k) is None) else cN(I(a[k]))) for k in names[:2]])
+        return clist([cpair(cN(NK(k)), cN(I(v))) for k, v in a.items() if _simple(v)])
 
     def ea(u, v, a):
-        o = _order_units(a.get(cfg["edge"]))
-        return copt(None if o is None else clist([cZ(x) for x in o]))
+        out = []
+        for k, x in a.items():
+            try:
+                o = _order_units(x)
+            except ValueError:
+                if k == cfg["edge"]:
+                    raise
+                continue
+            if o is not None:
+                out.append(cpair(cN(EK(k)), clist([cZ(z) for z in o])))
+        return clist(out)
     a = it["attr"]
     if case["attr_mode"] == "none":
         att = "[]"
@@ -688,7 +749,7 @@ def _coq_item(idx, it, case, I):
         att = clist([cZ(-1)]) if a is None else clist([cZ(ord(c)) for c in a])      # absent attribute: a value no string has
     else:
         att = clist([cZ(x) for x in a])
-    return "(MkItem %s %s %s)" % (cN(idx), att, G.coq_lgraph(it["g"], na, ea))
+    return "(MkRItem %s %s %s)" % (cN(idx), att, G.coq_lgraph(it["g"], na, ea))
 
 
 def _coq_op(op):
@@ -716,34 +777,47 @@ def _coq_op(op):
     raise AssertionError(k)
 
 
+def _coq_opx(op):
+    k = op[0]
+    if k == "ctor":
+        b = {"nx": "BNx", "mod": "BMod", "rule": "BRule"}.get(op[5].lower(), "BOther")      # .lower(): the encoder's part
+        return "OCtor %s %s %s %s" % (cbool(op[1] == "gc"), cnat(len(op[2])), cnat(len(op[3])), b)
+    if k == "backends":
+        return "OBackends %s" % cbool(op[1] == "gc")
+    return "OBase (%s)" % _coq_op(op)
+
+
 def coq_case(case):
     if not _in_domain(case):
         return None
+    import importlib.util
+    if importlib.util.find_spec("mod") is not None:
+        return None           # the contract ops of the model assume that the optional `mod` package is not installed
     cfg = _eff(case)
-    d0 = cfg["defaults"][0] if len(cfg["defaults"]) >= 1 else "*"
-    d1 = cfg["defaults"][1] if len(cfg["defaults"]) >= 2 else 0
-    vals = [d0, d1]
+    vals = list(cfg["defaults"])
     for it in case["items"]:
         for _, a in it["g"]["nodes"]:
-            for k in cfg["names"]:
-                if a.get(k) is not None:
-                    vals.append(a[k])
+            for v in a.values():
+                if _simple(v):
+                    vals.append(v)
     I = G.Intern(vals)
+    NK, EK = G.Intern(list(cfg["names"])), G.Intern([cfg["edge"]])
     mode = {"none": "ANone", "str": "AStr", "list": "AList", "mixed": "AMixed"}[case["attr_mode"]]
-    pool = clist([_coq_item(i, it, case, I) for i, it in enumerate(case["items"])])
+    pool = clist([_coq_item(i, it, case, I, NK, EK) for i, it in enumerate(case["items"])])
+    ccfg = "{| cc_names := %s; cc_defs := %s; cc_edge := %s |}" % (
+        clist([cN(NK(k)) for k in cfg["names"]]), clist([cN(I(d)) for d in cfg["defaults"]]), cN(EK(cfg["edge"])))
     main = [o for o in case["ops"] if o[0] not in EXTRA_OPS]
     extra = [o for o in case["ops"] if o[0] in EXTRA_OPS]
     if not extra:
-        return "run %s %s %s %s %s" % (cN(I(d0)), cN(I(d1)), mode, pool, clist([_coq_op(o) for o in main]))
+        return "runr %s %s %s %s" % (ccfg, mode, pool, clist([_coq_opx(o) for o in main]))
     xs = []
     for o in extra:
         if o[0] == "iso":
-            xs.append("tbool (item_iso %s [%s; %s] (pick pool %s) (pick pool %s))"
-                      % (cbool(o[3] != "none"), cN(I(d0)), cN(I(d1)), cnat(o[1]), cnat(o[2])))
+            xs.append("tbool (item_iso %s (cc_defs c) (pick pool %s) (pick pool %s))" % (cbool(o[3] != "none"), cnat(o[1]), cnat(o[2])))
         else:
             xs.append("tlist (tlist tnat) (chunks %s %s)" % (cnat(o[2]), clist([cnat(i) for i in o[1]])))
-    return "(let pool := %s in L (play %s %s %s pool [] %s ++ %s))" % (
-        pool, cN(I(d0)), cN(I(d1)), mode, clist([_coq_op(o) for o in main]), clist(xs))
+    return "(let c := %s in let pool := map (mk_item c) %s in L (playx (cc_defs c) %s pool [] %s ++ %s))" % (
+        ccfg, pool, mode, clist([_coq_opx(o) for o in main]), clist(xs))
 
 
 # ------------------------------------------------------------------ reference isomorphism (independent, brute force)
